@@ -614,8 +614,16 @@ theorem clientIDFromRequest_ok {now : Int} {r : DevHttpRequest} {p : DevProvider
   · rename_i hb
     split at h
     · rename_i u hu
-      simp at h
-      obtain ⟨rfl, rfl⟩ := h
+      -- `checkAuthMethodPost` only refuses: every success went through AuthorizeClientIDSecret
+      have hres : id = r.clientID ∧ a = true := by
+        split at h
+        · simp at h; exact ⟨h.1.symm, h.2⟩
+        · split at h
+          · simp at h
+          · split at h
+            · simp at h
+            · simp at h; exact ⟨h.1.symm, h.2⟩
+      obtain ⟨rfl, rfl⟩ := hres
       refine ⟨rfl, fun _ => ⟨by simpa using hb, ?_⟩, by simp⟩
       cases u; exact hu
     · simp at h
@@ -915,7 +923,10 @@ theorem deviceToken_legit {now : Int} {rt : Flow.Router} {p : DevProvider} {r : 
       · exact ⟨false, by simp [Hand.ClientIDFromRequest, hk, hid], Or.inr ha⟩
       · have hsec : p.p.store.AuthorizeClientIDSecret r.clientID r.clientSecret = .ok () :=
           authSecret_ok_iff.2 ⟨c, hfind, Or.inl ha, hs.symm⟩
-        exact ⟨true, by simp [Hand.ClientIDFromRequest, hk, hsec], Or.inl rfl⟩
+        have hnp : (c.auth == Const.AuthMethodPost) = false := by rw [ha]; decide
+        exact ⟨true, by
+          have hgc' : p.p.store.GetClientByClientID r.clientID = .ok c := hgc
+          cases hps : p.p.postSupported <;> simp [Hand.ClientIDFromRequest, hk, hsec, hps, hgc', hnp], Or.inl rfl⟩
     obtain ⟨a, hcid, hauth⟩ := hcid
     simp only [deviceToken, DevProvider.GrantTypeDeviceCodeSupported, hcap]
     unfold deviceAccessToken ParseDeviceAccessTokenRequest
@@ -1103,11 +1114,10 @@ theorem deviceAuthorization_cases {now : Int} {rt : Flow.Router} {p : DevProvide
     | error e =>
       have : e ≠ "panic" := by
         unfold Hand.ClientIDFromRequest at hcid
-        split at hcid
-        · split at hcid <;> simp at hcid
-          subst hcid; decide
-        · split at hcid <;> simp at hcid
-          subst hcid; decide
+        repeat' (split at hcid)
+        all_goals first
+          | (simp at hcid; done)
+          | (simp at hcid; subst hcid; decide)
       simp [this]
     | ok v =>
       obtain ⟨id, a⟩ := v
